@@ -127,3 +127,14 @@ pub fn hex(b: &[u8]) -> String {
 pub fn unhex(s: &str) -> Vec<u8> {
     (0..s.len() / 2).map(|i| u8::from_str_radix(&s[2 * i..2 * i + 2], 16).unwrap()).collect()
 }
+
+/// zstdcat <archive> <out>: decode with libzstd (exit 0 ok, 1 refused)
+pub fn zstdcat(args: &[String]) {
+    let data = std::fs::read(&args[0]).unwrap_or_default();
+    match zstd::decode_all(&data[..]) {
+        Ok(o) => {
+            std::fs::write(&args[1], o).unwrap();
+        }
+        Err(_) => std::process::exit(1),
+    }
+}
